@@ -53,6 +53,19 @@ def c15(run):
     # composition: the candidate is the answer of a peer to the real p2p.Exchange (tracker populated or empty); the
     # Exchange must hand a soft-failing answer over with its error so that the Syncer bifurcates
     judge(run, [{"id": 0, "from_tlc": False}], "TestComposite", "CompositeTrace", ["C15_"], shards=1, pkg="p2ph")
+    # two different valid candidates delivered concurrently (the first one parked inside its search): both have a verifiable
+    # path, both are accepted — serialising the candidates must not refuse the one that has to wait
+    def ev(e, kind, h):
+        return {"ev": {"e": e, "kind": kind, "h": h, "res": ""}, "sh": 0, "pend": [], "wait": False, "from": 0, "reqTo": 0, "serr": False, "sto": 0}
+    conc = []
+    for i in range(8 if quick else 100):
+        n_ = rnd.randint(8, 14)
+        far = rnd.randint(5, n_ - 1)
+        hist = [ev("gossipAsync", "valid", far), ev("gossipAsync", "valid", far + 1), ev("releaseByHeight", "", 12), ev("collectAll", "", 2)] + \
+               [ev("serve", "ok", 64) for _ in range(6)]
+        conc.append({"k": "SYNC", "n": n_, "hist": hist, "nodrift": True, "from_tlc": False, "epochLen": 2, "gateByHeight": True,
+                     "realtime": True, "id": 900000 + i})
+    judge(run, conc, "TestSyncer", "SyncerTrace", ["C15_"], shards=4, pkg="synch")
 
 
 @register("C16")
@@ -263,6 +276,21 @@ def syncer_family(run, prefixes):
         hist = [ev("advance", "", 4), ev("headStart", "", 0), ev("gossip", "valid", tgt), ev("headRelease", "adjacent", 0)] + \
                [ev("serve", "ok", 64) for _ in range(5)]
         frees.append({"k": "SYNC", "n": n_, "hist": hist, "nodrift": True, "from_tlc": False})
+    # (a') two different valid heads delivered concurrently, the first one parked inside bifurcation: both are accepted and
+    #      the higher one is reached (real threads: the second delivery waits on the handler's mutex)
+    for _ in range(10 if quick else 200):
+        n_ = rnd.randint(8, 14)
+        far = rnd.randint(5, n_ - 1)
+        hist = [ev("gossipAsync", "valid", far), ev("gossipAsync", "valid", far + 1), ev("releaseByHeight", "", 12), ev("collectAll", "", 2)] + \
+               [ev("serve", "ok", 64) for _ in range(6)]
+        frees.append({"k": "SYNC", "n": n_, "hist": hist, "nodrift": True, "from_tlc": False, "epochLen": 2, "gateByHeight": True, "realtime": True})
+    # (f) a getter failure that wraps context.Canceled while the Syncer is alive is reported like any other
+    for _ in range(6 if quick else 60):
+        n_ = rnd.randint(6, 12)
+        tgt = rnd.randint(4, n_ - 1)
+        hist = [ev("gossip", "valid", tgt), ev("serve", "ok", rnd.randint(1, 2)), ev("serve", "cancelWrapped", 0),
+                ev("gossip", "valid", tgt + 1)] + [ev("serve", "ok", 64) for _ in range(4)]
+        frees.append({"k": "SYNC", "n": n_, "hist": hist, "free": True, "from_tlc": False})
     # (d) Head() learns a verified newer head, then its tail renewal fails (SyncFromHeight moved to a height that has to be
     #     fetched, the peers refuse single headers): Head() reports the error, the learned head is a sync target all the same
     for _ in range(10 if quick else 150):
